@@ -23,6 +23,30 @@ pub const ALL: [&str; 20] = [
 ];
 
 pub fn run(ctx: &RunCtx) -> Outcome {
+    let mut o = run_generated(ctx);
+    // thorough tiers end with a coverage-guided campaign of the generic libFuzzer target (the property's own
+    // decoder and oracle inside the target); C01 C02 C05 C06 have dedicated targets of their own
+    if !ctx.quick() && o.violations.is_empty() && o.infra_error.is_none() && std::env::var("FRV_NO_FUZZ").is_err() && std::env::var("FRV_C18_TSAN_INNER").is_err() {
+        let runs = 40_000;
+        match ctx.prop {
+            "C02" => api::fuzz_prop_stage(ctx, &mut o, Some(&c01::prop(true)), "C02-flags", runs),
+            "C03" => api::fuzz_prop_stage(ctx, &mut o, Some(&c03::Inject), "C03", runs),
+            "C04" => api::fuzz_prop_stage(ctx, &mut o, Some(&c04::VsRegex { named: None }), "C04", runs),
+            "C07" => api::fuzz_prop_stage(ctx, &mut o, Some(&c07::Limits { only_pos0: false }), "C07", runs),
+            "C08" => api::fuzz_prop_stage(ctx, &mut o, Some(&api::IterModel), "C08", runs),
+            "C09" => api::fuzz_prop_stage(ctx, &mut o, Some(&api::Coherence), "C09", runs),
+            "C10" => api::fuzz_prop_stage(ctx, &mut o, Some(&api::SplitModel), "C10", runs),
+            "C11" => api::fuzz_prop_stage(ctx, &mut o, Some(&api::ReplaceModel), "C11", runs / 2),
+            "C14" => api::fuzz_prop_stage(ctx, &mut o, Some(&c14::Options), "C14", runs / 2),
+            "C15" => api::fuzz_prop_stage(ctx, &mut o, Some(&c01::prop_cond()), "C15", runs),
+            "C12" | "C17" | "C20" => api::fuzz_prop_stage::<api::Safety>(ctx, &mut o, None, ctx.prop, if ctx.prop == "C17" { runs / 4 } else { runs * 4 }),
+            _ => {}
+        }
+    }
+    o
+}
+
+fn run_generated(ctx: &RunCtx) -> Outcome {
     match ctx.prop {
         "C01" => c01::run(ctx, false),
         "C02" => c01::run(ctx, true),
